@@ -281,3 +281,57 @@ Definition rejected_obs (ds : string) (e : exn) : bool := match resolve ds with 
 
     def label(self, c, o):
         return "%s:%s" % (c["family"] or "unknown", "exc" if "exc" in o else "ok")
+
+
+# ------------------------------------------------------------------------------------------
+class RegistryScanUnit(Unit):
+    """C18, "no two datasets share a remote file, checksum or cache slot": every documented remote dataset is requested once in one data
+    home and what the loader was handed for it (remote file name, URL, pinned checksum) and where it cached it are compared pairwise.
+    Oracle only (the same statement is a theorem over the regenerated registry, Gen/Registry.v)."""
+    name = "registry_scan"
+    case_timeout = 120
+
+    def gen(self, rng, tier):
+        return [{"kind": "all-remote"}]
+
+    def run(self, c):
+        from traffic_weaver.datasets import load_dataset
+        rows = []
+        with warnings.catch_warnings():
+            warnings.simplefilter("ignore")
+            with Sandbox(use_env=True) as sb:
+                for fam, name in doc_names():
+                    if fam == "sandvine":
+                        continue
+                    before = set(sb.listing()) if hasattr(sb, "listing") else set()
+                    sb.current = None
+                    nd = len(sb.downloads)
+                    try:
+                        load_dataset(name)
+                        r = sb.current
+                        rows.append({"name": name, "filename": getattr(r, "filename", None), "url": getattr(r, "url", None),
+                                     "checksum": getattr(r, "checksum", None), "downloads": len(sb.downloads) - nd})
+                    except Exception as e:
+                        rows.append({"name": name, "exc": exn_name(e), "exc_msg": str(e)[:120]})
+        return {"rows": rows}
+
+    def coq(self, c, o):
+        return None
+
+    def oracle(self, c, o):
+        F = []
+        for field in ("filename", "url", "checksum"):
+            seen = {}
+            for r in o["rows"]:
+                v = r.get(field)
+                if v is None:
+                    continue
+                if v in seen:
+                    F.append(Failure(aspect="shared-" + field, what="datasets %r and %r share the remote %s %r" % (seen[v], r["name"], field, v),
+                                     signature={"aspect": "shared-" + field}))
+                    break
+                seen[v] = r["name"]
+        return F
+
+    def label(self, c, o):
+        return "remote:%d" % len(o.get("rows", []))
